@@ -23,6 +23,7 @@ RULE = (
     'whose transit exceeds the window; distinct = SHA-1 of (jump table, sites, window, cut-off).'
 )
 RULE += ' Added in rounds 5-10: injected tables in 5 row orders, 4 kinds of row labels and permuted column orders; cut-offs 0, negative, 1e-9; windows 0 and negative.'
+RULE += ' Round 12: a quarter of the cut-offs lie 1e-10..1e-7 A above or below one of the site-site distances.'
 ASSUMPTIONS = [
     'cut-offs are kept 1e-6 A away from every site-site distance (the comparison is strict <)',
     'the attempt frequency entering the default window is read from the real TrajectoryMetrics',
@@ -57,11 +58,22 @@ def row_key(ev):
     return tuple(int(ev[c]) for c in COLS)
 
 
+NEAR = [0]
+
+
 def pick_cutoff(rng, dsite):
     vals = dsite[np.triu_indices(len(dsite), 1)]
     if rng.uniform() < 0.1:
         # degenerate cut-offs: nothing is closer than 0 or a negative distance; 1e-9 admits only shared sites
         return float(rng.choice([0.0, -1.0, 1e-9]))
+    if rng.uniform() < 0.25 and len(vals):
+        # a cut-off a hair above / below one of the site-site distances (1e-10 .. 1e-7 A away, far outside the
+        # rounding of a double-precision distance, which is ~1e-14 A here): the pair just qualifies / just does not
+        v = float(vals[int(rng.integers(len(vals)))])
+        c = v + float(rng.choice([-1.0, 1.0])) * 10.0 ** float(rng.uniform(-10, -7))
+        if np.min(np.abs(vals - c)) > 2e-11 and abs(c) > 1e-6:
+            NEAR[0] += 1
+            return c
     for _ in range(100):
         c = float(rng.uniform(0.5, 1.6) * np.median(vals)) if rng.uniform() < 0.8 else float(rng.uniform(0.5, 4.0))
         if np.min(np.abs(vals - c)) > 1e-6 and abs(c) > 1e-6:
@@ -237,4 +249,6 @@ def run_unit(unit, rng, ctx):
             sig_rows.append(table)
             ctx.count('via_injected_table')
     ctx.count(f'lattice:{sys_.kind}')
+    ctx.count('cutoffs_within_1e-7_A_of_a_site_distance', NEAR[0])
+    NEAR[0] = 0
     ctx.case(signature(sig_rows, sys_.site_frac, sys_.matrix), n_pairs > 0 and n_long > 0, sample={'lattice': sys_.kind, 'sites': len(sys_.site_frac), 'pipeline_jumps': j.n_jumps if j is not None else 0, 'injected_rows': len(table), 'collective_pairs_in_model': n_pairs, 'long_transit_jumps': n_long, 'first_rows(atom,origin,dest,start,stop)': table[:5]})
